@@ -19,7 +19,7 @@ def scratch(patch):
     for f in ("pyproject.toml",):
         shutil.copy(os.path.join("/repo", f), tmp)
     if patch:
-        r = subprocess.run(["patch", "-p1", "-s", "-d", tmp, "-i", os.path.abspath(patch)], capture_output=True, text=True)
+        r = subprocess.run(["patch", "-p1", "-s", "-F3", "--no-backup-if-mismatch", "-d", tmp, "-i", os.path.abspath(patch)], capture_output=True, text=True)
         if r.returncode != 0:
             shutil.rmtree(tmp)
             raise SystemExit("patch does not apply: " + r.stdout + r.stderr)
